@@ -396,14 +396,6 @@ func modelDump(m map[string]string) []KV {
 	return out
 }
 
-func copyModel(m map[string]string) map[string]string {
-	c := make(map[string]string, len(m))
-	for k, v := range m {
-		c[k] = v
-	}
-	return c
-}
-
 // applyHist applies a put/remove statement's intended effect to the model.
 func applyHist(m map[string]string, h *HistStmt) {
 	switch h.Kind {
